@@ -26,18 +26,25 @@ RULE = ('class shapes: inheritance chains of depth 1-3 with auto_persist at some
 RULE += ('; also: members declared from the persist() hook or saved manually, ancestors saved before / after, futures resolved with a Savable, a shadowing class, a class name rebound after the first save, load and save contexts reused across saves')
 ASSUMPTIONS = ['custom loaders are constructible without arguments (the saved state records the loader class)', 'exceptions compare by type and args']
 REQUIRED = ['roundtrips', 'kinds/plain', 'kinds/method', 'kinds/savable', 'kinds/future', 'future_states/pending', 'future_states/result',
-            'future_states/exception', 'future_states/exception-falsy', 'future_states/cancelled', 'future_states/result-savable', 'manually_saved', 'hook_declared', 'loader/default', 'loader/global', 'loader/persave', 'loader/unknown', 'loader/ctxreuse',
+            'future_states/exception', 'future_states/exception-falsy', 'future_states/exception-base', 'saved_states_as_data', 'future_states/cancelled', 'future_states/result-savable', 'manually_saved', 'hook_declared', 'loader/default', 'loader/global', 'loader/persave', 'loader/unknown', 'loader/ctxreuse',
             'mutation_probes', 'inherited_checks', 'rebound_name_probes', 'second_saves_same_context', 'refusing_loader_probes', 'global_loader_derived_from_recorded', 'loader/persave-anon', 'registry_loader_probes', 'foreign_method_probes', 'loaded_before_any_save_of_the_class', 'extended_context_copies', 'unimportable_module_probes', 'loader/persave-picky']
 BOUNDS = {'quick': '150 shapes x 4 loader modes', 'thorough': '3000 shapes x 4 loader modes'}
 
 PLAIN_VALUES = [1, 's', None, [1, [2, 3]], {'k': [1, 2], 'd': {'e': 5}}, (1, 2), [], {}, ('run', [10, 20], {'depth': 1}), {'t': ([1], 2)},
                 # ('@FROZEN': a read-only mapping -- only the mapping is frozen, not the list it holds)
-                {'@FROZEN': {'tags': ['a'], 'n': 1}}, [{'@FROZEN': {'items': [[1]]}}]]
+                {'@FROZEN': {'tags': ['a'], 'n': 1}}, [{'@FROZEN': {'items': [[1]]}}],
+                # (data that happens to be somebody's saved state -- the dictionary ``save()`` returned, a Bundle: kept as data, e.g. the last
+                # checkpoint of a child held by its supervisor; it is plain, it stays what it is)
+                {'@STATE': 4}, {'@BUNDLE': 5}, {'held': {'@STATE': 6}}]
 
 
 def _realize(v):
     """The value a description stands for ('@FROZEN' markers become AttributesFrozendict objects)."""
     if isinstance(v, dict):
+        if '@STATE' in v:
+            return Box(v['@STATE']).save()
+        if '@BUNDLE' in v:
+            return plumpy.Bundle(Box(v['@BUNDLE']))
         if '@FROZEN' in v:
             return plumpy.utils.AttributesFrozendict({k: _realize(x) for k, x in v['@FROZEN'].items()})
         return {k: _realize(x) for k, x in v.items()}
@@ -46,7 +53,7 @@ def _realize(v):
     if isinstance(v, tuple):
         return tuple(_realize(x) for x in v)
     return v
-FSTATES = ['pending', 'result', 'exception', 'cancelled', 'result-savable', 'exception-falsy']
+FSTATES = ['pending', 'result', 'exception', 'cancelled', 'result-savable', 'exception-falsy', 'exception-base']
 
 
 class CountingLoader(loaders.ObjectLoader):
@@ -273,6 +280,9 @@ def make_value(owner, desc):
         elif desc[1] == 'exception':
             fut.set_exception(ValueError('fut-exc', repr(desc[2])))
             fut.exception()  # mark retrieved
+        elif desc[1] == 'exception-base':
+            fut.set_exception(AbortSignal('fut-exc-base'))  # a failure that is no ``Exception`` (an application's abort signal)
+            fut.exception()
         elif desc[1] == 'exception-falsy':
             fut.set_exception(FalsyError('fut-exc-falsy'))  # an exception object that is falsy (it has a length, and is empty)
             fut.exception()
@@ -324,6 +334,13 @@ class FalsyError(Exception):
 generated.register(FalsyError, 'FalsyError')
 
 
+class AbortSignal(BaseException):
+    pass
+
+
+generated.register(AbortSignal, 'AbortSignal')
+
+
 @auto_persist('v')
 class Box(Savable):
     """A small Savable used as the result of a future."""
@@ -359,6 +376,8 @@ def compare(orig_desc_shape, new, path, obs, viol, V):
         val = getattr(new, name)
         if kind == 'plain':
             want = _realize(desc[1])
+            if '@STATE' in repr(desc[1]) or '@BUNDLE' in repr(desc[1]):
+                obs['saved_states_as_data'] = obs.get('saved_states_as_data', 0) + 1
             if val != want or type(val) is not type(want) or (isinstance(want, list) and [type(x) for x in val] != [type(x) for x in want]):
                 viol.append(V('plain-differs', 'plain-differs:%s' % type(desc[1]).__name__, 'member %s is %r, saved %r' % (where, val, desc[1])))
         elif kind == 'method':
@@ -374,7 +393,7 @@ def compare(orig_desc_shape, new, path, obs, viol, V):
             obs['future_states'][desc[1]] = obs['future_states'].get(desc[1], 0) + 1
             exp = {'pending': ['pending'], 'cancelled': ['cancelled'], 'result': ['result', desc[2]], 'result-savable': None,
                    'exception': ['exception', 'ValueError', ['fut-exc', repr(desc[2])]],
-                   'exception-falsy': ['exception', 'FalsyError', ['fut-exc-falsy']]}[desc[1]]
+                   'exception-falsy': ['exception', 'FalsyError', ['fut-exc-falsy']], 'exception-base': ['exception', 'AbortSignal', ['fut-exc-base']]}[desc[1]]
             if not isinstance(val, SavableFuture):
                 viol.append(V('future-type', 'future-type', 'member %s is %r' % (where, val)))
             elif desc[1] == 'result-savable':
